@@ -114,6 +114,8 @@ def check_fromitp_transforms(case):
     from .c01_extra import M_ITP
     viols, evals, keys = [], 0, []
     ff_text = M_ITP + F.render_block_itp("A", F.BLOCKS["A"]) + F.render_block_itp("B", F.BLOCKS["B"])
+    # a link that bonds consecutive copies of M (last residue of one copy to the first of the next)
+    copy_link = '[ link ]\n[ atoms ]\ny1 {"resname": "MB"}\n+x1 {"resname": "MA"}\n[ bonds ]\ny1 +x1 1 0.42 420\n'
     specs = [(seq, None) for seq in (["M"], ["M", "A"], ["A", "M"], ["M", "M"], ["M", "A", "M"], ["A", "M", "M"], ["M", "B", "M", "A"])]
     # residue graphs with cycles: the fragment can be reached around the ring as well as through its own edge
     specs += [(["M", "A"], [[0, 1], [1, 2], [0, 2]]), (["A", "M"], [[0, 1], [1, 2], [0, 2]]), (["M", "M"], [[0, 1], [1, 2], [2, 3], [0, 3]]),
@@ -126,7 +128,8 @@ def check_fromitp_transforms(case):
         rg = dict(n=n, edges=edges or [[i, i + 1] for i in range(n - 1)], resids=[1 + i for i in range(n)], resnames=[r[0] for r in residues],
                   node_attrs={str(i): {"from_itp": "M"} for i, r in enumerate(residues) if r[1]})
         ne = len(rg["edges"])
-        base = run_graph(H.parse_ff([("itp", ff_text)]), H.build_resgraph(rg))
+        texts = [("itp", ff_text), ("ff", copy_link)]
+        base = run_graph(H.parse_ff(texts), H.build_resgraph(rg))
         if base and base[0] == "EXC":
             viols.append(dict(assertion="independent-of-insertion-order", tags=["from_itp"], message=f"sequence {seq} edges {rg['edges']}: base input raises {base[1]}",
                               case=dict(kind="fromitp1", seq=seq, edges=edges, transform=["base", []]), detail={}))
@@ -140,7 +143,7 @@ def check_fromitp_transforms(case):
             todo += [("edge-orientation", [i for i in range(ne) if bits >> i & 1]) for bits in range(1, 2 ** ne)]
         for kind, detail in todo:
             evals += 1
-            got = run_graph(H.parse_ff([("itp", ff_text)]), apply_transform(rg, (kind, detail)))
+            got = run_graph(H.parse_ff(texts), apply_transform(rg, (kind, detail)))
             if got != base and len(viols) < 20:
                 what = f"exception {got[1]}" if got and got[0] == "EXC" else "output differs"
                 viols.append(dict(assertion=f"independent-of-{kind}", tags=["from_itp"] + (["cyclic"] if edges else []),
